@@ -131,6 +131,10 @@ pub struct Printer<'a> {
     file: usize,
     /// names needed from other files: to_file -> set of original names
     needed: std::collections::BTreeMap<usize, std::collections::BTreeSet<String>>,
+    /// files this file must import with a plain `use` (namespace access through another module: `via.to.x`)
+    plain_uses: std::collections::BTreeSet<usize>,
+    /// (via, to): module `via` must import module `to` with a plain `use` because some file writes `via.to.x`
+    via_links: std::collections::BTreeSet<(usize, usize)>,
 }
 
 fn take(c: &Choices, i: &mut usize) -> u8 {
@@ -218,6 +222,8 @@ impl<'a> Printer<'a> {
             annot_taken: Vec::new(),
             file: 0,
             needed: std::collections::BTreeMap::new(),
+            plain_uses: std::collections::BTreeSet::new(),
+            via_links: std::collections::BTreeSet::new(),
         }
     }
 
@@ -236,7 +242,19 @@ impl<'a> Printer<'a> {
         if to == self.file {
             return name;
         }
-        let style = m.style.get(self.file).and_then(|r| r.get(to)).copied().unwrap_or(0) % 4;
+        let style = m.style.get(self.file).and_then(|r| r.get(to)).copied().unwrap_or(0) % 5;
+        if style == 4 {
+            // through a third module: `use via` here, `use to` there, written `via.to.name`
+            let nf = m.files.len();
+            if let Some(via) = (1..nf).map(|k| (to + k) % nf).find(|k| *k != self.file && *k != to && *k != 0) {
+                self.plain_uses.insert(via);
+                self.via_links.insert((via, to));
+                let a = module_ns(&import_path(&m.files[self.file], &m.files[via], false));
+                let b = module_ns(&import_path(&m.files[via], &m.files[to], false));
+                return format!("{}.{}.{}", a, b, name);
+            }
+        }
+        let style = if style == 4 { 0 } else { style };
         self.needed.entry(to).or_default().insert(name.clone());
         match style {
             0 => {
@@ -546,8 +564,6 @@ impl<'a> Printer<'a> {
                     EKind::Call(..) | EKind::Std(..) => format!("({})", first),
                     _ => first,
                 };
-                let rest = self.args(&args[1..]);
-                self.sugar_depth -= 1;
                 let brk = if !tail {
                     self.brackets += 1;
                     let b = self.op_break();
@@ -556,6 +572,8 @@ impl<'a> Printer<'a> {
                 } else {
                     self.op_break()
                 };
+                let rest = self.args(&args[1..]);
+                self.sugar_depth -= 1;
                 let s = format!("{}{}-> {}({})", first, brk, callee, rest);
                 if tail {
                     s
@@ -593,9 +611,10 @@ impl<'a> Printer<'a> {
             EKind::Bool(b) => format!("{}", b),
             EKind::Var(v) => self.name(*v),
             EKind::Bin(op, a, b) => {
+                // text is produced in textual order: line numbers of `<!>` inside the right operand count the break
                 let l = self.operand(a);
-                let r = self.operand(b);
                 let brk = self.op_break();
+                let r = self.operand(b);
                 format!("{}{}{} {}", l, brk, op.text(), r)
             }
             EKind::Neg(a) => format!("-{}", self.operand(a)),
@@ -1039,6 +1058,19 @@ pub fn print_files(p: &Program, plan: &Plan) -> PrintedFiles {
     let mut unreachable_lines = HashMap::new();
     let mut styles = std::collections::BTreeSet::new();
     let mut cross = 0;
+    // pre-pass: which modules must import which others on behalf of `via.to.x` references written elsewhere
+    let mut forced: std::collections::BTreeMap<usize, std::collections::BTreeSet<usize>> = std::collections::BTreeMap::new();
+    let mut via_used = false;
+    for f in 0..m.files.len() {
+        let mut pr = Printer::new(p, plan);
+        let items: Vec<usize> = pr.ordered_items().into_iter().filter(|i| *m.file_of.get(*i).unwrap_or(&0) == f).collect();
+        pr.file = f;
+        pr.render_items(&items);
+        for (via, to) in pr.via_links.iter() {
+            forced.entry(*via).or_default().insert(*to);
+            via_used = true;
+        }
+    }
     for f in 0..m.files.len() {
         let items: Vec<usize> = {
             let pr = Printer::new(p, plan);
@@ -1050,9 +1082,28 @@ pub fn print_files(p: &Program, plan: &Plan) -> PrintedFiles {
         pr.render_items(&items);
         let needed = pr.needed.clone();
         let mut header = String::new();
+        // plain `use` lines: for `via.to.x` written here, and on behalf of such references written elsewhere
+        let mut plain: std::collections::BTreeSet<usize> = pr.plain_uses.clone();
+        if let Some(fs) = forced.get(&f) {
+            plain.extend(fs.iter().copied());
+        }
+        for to in &plain {
+            let own_style = m.style.get(f).and_then(|r| r.get(*to)).copied().unwrap_or(0) % 5;
+            let own_rooted = m.rooted.get(f).and_then(|r| r.get(*to)).copied().unwrap_or(false);
+            // the file's own plain import of that module (relative or rooted) binds the same namespace name
+            let _ = own_rooted;
+            let already = needed.contains_key(to) && (own_style == 0 || own_style == 4);
+            if !already {
+                header.push_str(&format!("use {}\n", import_path(&m.files[f], &m.files[*to], false)));
+            }
+        }
+        if via_used {
+            styles.insert(4);
+        }
         for (to, names) in &needed {
             cross += names.len();
-            let style = m.style.get(f).and_then(|r| r.get(*to)).copied().unwrap_or(0) % 4;
+            let style = m.style.get(f).and_then(|r| r.get(*to)).copied().unwrap_or(0) % 5;
+            let style = if style == 4 { 0 } else { style };
             styles.insert(style);
             let rooted = m.rooted.get(f).and_then(|r| r.get(*to)).copied().unwrap_or(false);
             let path = import_path(&m.files[f], &m.files[*to], rooted);
@@ -1080,7 +1131,7 @@ pub fn print_files(p: &Program, plan: &Plan) -> PrintedFiles {
         if f == 0 {
             // every non-empty module is loaded: main imports the ones nothing else made it need
             for to in 1..m.files.len() {
-                if !needed.contains_key(&to) && m.file_of.iter().any(|x| *x == to) {
+                if !needed.contains_key(&to) && !plain.contains(&to) && m.file_of.iter().any(|x| *x == to) {
                     header.push_str(&format!("use {}\n", import_path(&m.files[0], &m.files[to], false)));
                 }
             }
